@@ -426,6 +426,22 @@ def intervals(rep, idx, rule="C02.6"):
                 probe = ir.from_ast(n.args[1], {})
                 lname = lst[2] if lst[0] == 'attr' else None
                 pk = probe_kind(probe)
+                if pk is None and probe[0] == 'name':
+                    # a local bound once (plain or tuple-unpacking assignment) stands for the expression bound to it
+                    binds = []
+                    for s_ in ast.walk(fi.node):
+                        if isinstance(s_, ast.Assign) and len(s_.targets) == 1:
+                            t_ = s_.targets[0]
+                            if isinstance(t_, ast.Name) and t_.id == probe[1]:
+                                binds.append(s_.value)
+                            elif isinstance(t_, ast.Tuple) and isinstance(s_.value, ast.Tuple) and len(t_.elts) == len(s_.value.elts):
+                                for a_, b_ in zip(t_.elts, s_.value.elts):
+                                    if isinstance(a_, ast.Name) and a_.id == probe[1]:
+                                        binds.append(b_)
+                    stores = [x for x in ast.walk(fi.node) if isinstance(x, ast.Name) and x.id == probe[1] and isinstance(x.ctx, ast.Store)]
+                    if len(binds) == 1 and len(stores) == 1:
+                        probe = ir.norm(ir.from_ast(binds[0], {}))
+                        pk = probe_kind(probe)
                 what = f"{mname}(): {ast.unparse(n)}"
                 nsites += 1
                 brule = BISECT_RULES.get((lname, pk))
